@@ -994,3 +994,7 @@ META = {
                      "MemoryError, RecursionError (library reference)",
                      "dependency spec: synchronous iteration of an async generator raises TypeError"],
 }
+
+# obligations added by the main session after the seeded-change round (block references, has_safe_repr)
+from contracts import c34_extra as _x  # noqa: E402
+TASKS = list(TASKS) + _x.TASKS
